@@ -279,7 +279,21 @@ def _worker(chunk):
     return agg
 
 
+def deductive(ctx):
+    """engine D: template_update_single re-roots a templated path as cache_dir / <formatted>.name on every
+    path and returns an explicit value as stored"""
+    from contracts import templating as T
+    from pyvc.verify import verify, summarize
+
+    summarize(ctx, verify(ctx, T.contract()))
+
+
 def run(ctx):
+    deductive(ctx)
+    _run_bounded(ctx)
+
+
+def _run_bounded(ctx):
     ctx.level = "other"
     ctx.explanation = (
         "bounded (engine B): outarg definitions with generated path templates referencing 0-2 inputs (files with 0-2 extensions, strings incl. "
